@@ -304,6 +304,25 @@ def state_machine(index: RepoIndex, rep, rule: str) -> None:
                           f'the functional_step call', 'step result')
             rep.check(bool(rets), rule, INNER, m.short, m.node.lineno, m.short,
                       f'{m.short} does not return the reward and flag', 'step returns')
+    # a writer does not run another writer: `step` that calls `self.reset()` (auto-reset after
+    # a terminal step) replaces the successor state by a fresh initial state
+    wnames = [mn for mn, m_ in cls.methods.items() if mn != '__init__' and any(
+        self_attr_store(e_, '_state') for e_ in walk_function(m_.node).events)]
+    for mn in wnames:
+        if mn in setters:
+            continue
+        wm = walk_function(cls.methods[mn].node)
+        for e_ in wm.events:
+            if e_.kind == 'call' and isinstance(e_.node.func, ast.Attribute) and \
+                    src(e_.node.func.value) == 'self' and e_.node.func.attr in wnames and \
+                    e_.node.func.attr != mn and e_.node.func.attr not in setters and \
+                    not (e_.node.func.attr.startswith('_') and
+                         e_.node.func.attr in inlined_somewhere):
+                rep.violation(rule, INNER, f'InnerEnv.{mn}', e_.line, src(e_.node),
+                              f'InnerEnv.{mn} also runs `{src(e_.node)}`, which replaces the '
+                              f'state on its own: the state after this call is not the '
+                              f'successor of the state before it (objects vanish, appear and '
+                              f'move between two consecutive states)')
     if writers < 2:
         raise AnalysisError(f'InnerEnv: {writers} methods write _state, floor is 2 (reset, step)')
     # a private writer is an internal step of reset/step: nobody else may call it
@@ -319,7 +338,15 @@ def state_machine(index: RepoIndex, rep, rule: str) -> None:
 
 
 
-def outer_delegation(index: RepoIndex, rep, rule: str) -> None:
+def outer_delegation(index: RepoIndex, rep, rule: str, strict: bool = True) -> None:
+    if not strict:
+        # registered under another property: a step the reader cannot decide is left to the
+        # checks that own it (C04.R5, C20.R1), not turned into an analysis error here
+        try:
+            outer_delegation(index, rep, rule, True)
+        except AnalysisError as err:
+            rep.undecided(rule, f'{OUTER}:OuterEnv.step', str(err)[:160])
+        return
     """OuterEnv.reset / step delegate to the inner environment exactly once and return its
     answer (C04.R5)"""
     from ..view import view
